@@ -727,6 +727,9 @@ def evaluate_smt_formula(
             return Some(ThreeValuedTruth.false())
 
     def fallback(_) -> Maybe[ThreeValuedTruth]:
+        if any(assignments[var][1].is_open() for var in formula.free_variables()):
+            return Some(ThreeValuedTruth.unknown())
+
         return Some(
             is_valid(
                 z3.substitute(
